@@ -65,15 +65,15 @@ CLAIMED = {
             "The Cursor primitives (bump, eatc, current_str, prev_str, drain, is_pending) are the trusted vocabulary of the machine extraction; reference choices (SourceCharacter = any scalar value, whitespace runs as one token) are listed in the evidence.",
             "pattern-set evaluation of HIR predicates over a finite character partition; abstract interpretation of the lexer loop from HIR + product-automaton exploration against a reference machine", True),
     "C06": ("other",
-            "Sibling agreement between the lexer's escape table and the decoder's match arms (each accepted letter pushes the spec's character, none falls into the silent arm), block-string constants/line-splitting/delimiter offsets, and provenance of compiler string values from the decoder.",
-            "Decides the escape tables and structural constants only; BlockStringValue's indentation arithmetic is data-dependent and not decided.",
-            "pattern-set evaluation of match arms + sibling table comparison over HIR; const evaluation", True),
+            "Sibling agreement between the lexer's escape table and the decoder's match arms (each accepted letter pushes the spec's character, none falls into the silent arm), block-string constants/line-splitting/delimiter offsets, the WhiteSpace predicate of the block-string algorithm (no std whitespace), the arithmetic of BlockStringValue() where the code's shape shows it (first line excluded from the common indent, indent < length, min(commonIndent, len) removed from every line but the first, leading / trailing blank lines, LF joining), and provenance of compiler string values from the decoder.",
+            "Decides the escape tables (by a specialising walk of the decoder's CFG per escape letter), the structural constants and the recognised constructs of the indentation algorithm (a construct written differently is noted, not judged); equality of decoded values over all strings is not decided.",
+            "specialising CFG walk (partial evaluation on character classes) + sibling table comparison; symbolic evaluation of iterator pipelines and closure path tables over rustc MIR; const evaluation", True),
     "C10": ("other",
-            "Byte-class tables of the Name grammar folded over all 256 bytes (and compared with the lexer's and parser's), shape of is_valid_syntax, who-calls gate on the unchecked constructors (dominating successful check / grammar-matching literal / const-asserted macro), guard of the numeric serde visitors, the slice-pattern language of IntValue::valid_syntax, and the Display templates of Type vs the CST conversion.",
-            "Clause-level: float printing is std behaviour; numeric round trips are not decided; FloatValue::valid_syntax's language is decided only in the thorough tier if at all.",
-            "pattern-set evaluation, dominating-fact (GUARD) who-calls rule, format-template decoding over rustc HIR/MIR", False),
+            "Byte-class tables of the Name grammar folded over all 256 bytes (and compared with the lexer's and parser's), shape of is_valid_syntax, who-calls gate on the unchecked constructors (dominating successful check / grammar-matching literal / const-asserted macro), guard of the numeric serde visitors, the regular languages accepted by IntValue::valid_syntax and FloatValue::valid_syntax (extracted from their HIR as automata and compared with the grammar's IntValue / FloatValue by language difference, each direction with a shortest witness), the text of From<i32>/From<f64> (Display only), and the Display templates of Type vs the CST conversion.",
+            "Clause-level: float printing is std behaviour; numeric round trips are not decided.",
+            "pattern-set evaluation, dominating-fact (GUARD) who-calls rule, abstract interpretation of string predicates into regular languages + automata equivalence, format-template decoding over rustc HIR/MIR", False),
     "C09": ("other",
-            "Composition of three extracted tables: the serializer's escaped-character set and per-character escape text, the lexer's string-body/escape tables and the decoder's table - every character the lexer cannot take raw is escaped and every escape decodes back to the same character; plus the presence rules of can_be_block_string and the triple-quote constants shared with the parser.",
+            "Composition of three extracted tables: the serializer's escaped-character set and per-character escape text, the lexer's string-body/escape tables and the decoder's table - every character the lexer cannot take raw is escaped and every escape decodes back to the same character; plus the presence rules of can_be_block_string (carriage return, blank first/last line, zero common indentation computed over the non-blank lines only) and the triple-quote constants shared with the parser.",
             "Decides the table-level inverse relation and the block-string gate; the round trip over all Unicode strings (indentation arithmetic, line joining) is not decided.",
             "pattern-set evaluation of closures/match arms, format-template decoding, const comparison over rustc HIR", False),
     "C05": ("other",
